@@ -110,8 +110,8 @@ func c06Finish(db *gorm.DB, fin int) (string, []interface{}, error) {
 type c06Shape struct {
 	table  bool // the handle names its table (Table) before the prefix calls
 	ret    bool // dialect with RETURNING support
-	prefix int // op kind repeated three times before Session (-1: bare root handle)
-	via    int // how the reusable handle is obtained: 0 Session{}, 1 WithContext, 2 Debug, 3 Session{NewDB:false,Context}
+	prefix int  // op kind repeated three times before Session (-1: bare root handle)
+	via    int  // how the reusable handle is obtained: 0 Session{}, 1 WithContext, 2 Debug, 3 Session{NewDB:false,Context}
 	fin    int
 }
 
